@@ -375,7 +375,10 @@ C08_eng(H) ==
     /\ (H.cancel >= 0 /\ H.cancel < H.out.t) => (H.out.t <= H.cancel + H.par.poll_us + H.par.delay_us /\ ~H.out.ok /\ H.out.err.canceled)
 \* a failing driver call gives an error that wraps the cause and no result; no goroutine outlives the call
 C10_eng(H) ==
-    /\ ((\E i \in DOMAIN H.sent : H.sent[i].fail) \/ (\E i \in DOMAIN H.got : H.got[i].err = "fatal")) => (~H.out.ok /\ H.out.err.engfatal)
+    \* (when a failing call and a contract violation of the driver - nil response, TTL out of range - happen at the same instant,
+    \* the engine reports whichever its goroutines hit first: the cause must be wrapped unless such a violation also occurred)
+    /\ ((\E i \in DOMAIN H.sent : H.sent[i].fail) \/ (\E i \in DOMAIN H.got : H.got[i].err = "fatal")) =>
+           (~H.out.ok /\ (H.out.err.engfatal \/ \E i \in DOMAIN H.got : H.got[i].err = "nil" \/ (H.got[i].err = "" /\ (H.got[i].ttl < H.par.min \/ H.got[i].ttl > H.par.max))))
     /\ EngFatal(H) => ~H.out.ok
     /\ H.out.goroutines = 0 /\ H.out.panic = ""
 
@@ -386,7 +389,7 @@ C10_eng(H) ==
 (***************************************************************************)
 WireRuns(H) == {H.sent[i].run : i \in DOMAIN H.sent}
 FatalOps == {"newsink", "newsource", "setfilter", "setdeadline", "read", "write"}
-FiredFailing(H) == {i \in DOMAIN H.flt : H.flt[i].op \in FatalOps /\ H.flt[i].class \in {"fatal", "zero"}}
+FiredFailing(H) == {i \in DOMAIN H.flt : H.flt[i].op \in FatalOps /\ H.flt[i].class \in {"fatal", "zero", "typed"}}
 CauseName(f) == f.op \o "@" \o ToString(f.run)
 HasCause(out, c) == \E k \in DOMAIN out.err.causes : out.err.causes[k] = c
 
@@ -416,7 +419,7 @@ C15_run(H) ==
     /\ H.out.panic = ""
     /\ H.out.ok => (Len(H.out.runs) = H.par.queries /\ Len(H.out.rtts_us) = H.par.e2e /\ ff = {})
     /\ ff # {} => /\ ~H.out.ok /\ ~H.out.has_result
-                  /\ \A i \in ff : H.flt[i].class = "fatal" => HasCause(H.out, CauseName(H.flt[i]))
+                  /\ \A i \in ff : H.flt[i].class \in {"fatal", "typed"} => HasCause(H.out, CauseName(H.flt[i]))
     /\ (ff = {} /\ H.cancel < 0) => H.out.ok     \* in particular a failing public-IP lookup never fails the request
     /\ H.out.ok => (H.out.pub = IF H.par.public_ip /\ H.par.pub_mode = "ok" THEN "203.0.113.77" ELSE "")
 
@@ -448,13 +451,13 @@ C17_run(H) ==
     /\ \A r \in DOMAIN H.out.runs :
          LET hops == H.out.runs[r].hops IN
          /\ Len(hops) = 8
-         /\ \A k \in 1..6 :
+         /\ \A k \in 1..7 :
               /\ hops[k].ttl = k
-              /\ IF ex.skip /\ ex.private[k]
+              /\ IF ex.routers[k] = "" \/ (ex.skip /\ ex.private[k])
                  THEN hops[k].addr = "" /\ hops[k].rtt_us = 0 /\ ~hops[k].reach /\ Len(hops[k].names) = 0
                  ELSE /\ hops[k].addr = ex.routers[k] /\ hops[k].rtt_us = 1000 * k /\ hops[k].reach
                       /\ hops[k].names = (IF ex.rdns THEN <<"name-of-hop">> ELSE <<>>)
-         /\ hops[7].addr = "" /\ hops[8].addr # ""
+         /\ hops[8].addr # ""
 
 \* C13: the document reported on a real kernel path equals KernelPath!Expected (CLI output has no destination flag:
 \* there the clipped length and the positive end-to-end sample show that the destination was recognised)
